@@ -583,45 +583,48 @@ func genSigner(t *rapid.T, fixtures []int) SignerSpec {
 	}
 }
 
-func TestPropSignatures(t *testing.T) {
-	prop.Rapid(t, func(t *rapid.T) Case {
-		c := Case{Bundle: genBundle(t), ViaFile: rapid.Bool().Draw(t, "viafile"), Time: "mid", Decoys: rapid.SampledFrom([]string{"", "", "dup", "unencodable", "both"}).Draw(t, "decoys")}
-		ns := rapid.SampledFrom([]int{1, 1, 2, 2, 3}).Draw(t, "nsigners")
-		for i := 0; i < ns; i++ {
-			c.Signers = append(c.Signers, genSigner(t, []int{0, 1, 2, 4, 5}))
+func TestPropSignatures(t *testing.T) { prop.Rapid(t, genPropSignatures) }
+
+// TestConcSignatures: batches of cases evaluated at the same time on separate goroutines (vh.Prop.Concurrent).
+func TestConcSignatures(t *testing.T) { prop.Concurrent(t, genPropSignatures, 8, 3) }
+
+func genPropSignatures(t *rapid.T) Case {
+	c := Case{Bundle: genBundle(t), ViaFile: rapid.Bool().Draw(t, "viafile"), Time: "mid", Decoys: rapid.SampledFrom([]string{"", "", "dup", "unencodable", "both"}).Draw(t, "decoys")}
+	ns := rapid.SampledFrom([]int{1, 1, 2, 2, 3}).Draw(t, "nsigners")
+	for i := 0; i < ns; i++ {
+		c.Signers = append(c.Signers, genSigner(t, []int{0, 1, 2, 4, 5}))
+	}
+	switch rapid.IntRange(0, 9).Draw(t, "scenario") {
+	case 0:
+		c.Tamper.Kind = "none"
+		c.Time = rapid.SampledFrom([]string{"mid", "start", "end", "start+ns", "end-ns"}).Draw(t, "time")
+	case 1:
+		c.Tamper.Kind = "none"
+		c.Time = rapid.SampledFrom([]string{"start-1", "end+1", "start-ns", "end+ns", "end+ms"}).Draw(t, "badtime")
+	case 2:
+		c.Tamper.Kind = "none"
+		c.Signers[rapid.IntRange(0, ns-1).Draw(t, "longidx")].Duration = rapid.SampledFrom([]int64{7*24*3600 + 1, 7*24*3600 + 1, 8 * 24 * 3600, 8 * 24 * 3600, 1<<31 - 1, 1 << 31, 1 << 32, 1<<32 + 3600, 1 << 33, 9223372036}).Draw(t, "long")
+	default:
+		c.Tamper = Tamper{
+			Kind:  rapid.SampledFrom([]string{"body-flip", "body-trunc", "body-extend", "status", "hdr-add", "hdr-remove", "hdr-edit", "reencode", "signed-flip", "sig-flip", "sig-append", "authority", "auth-swap", "auth-samekey-cert"}).Draw(t, "tamper"),
+			Ex:    rapid.IntRange(0, 20).Draw(t, "ex"),
+			Pos:   rapid.IntRange(0, 1<<16).Draw(t, "pos"),
+			Bit:   rapid.IntRange(0, 7).Draw(t, "bit"),
+			N:     rapid.IntRange(0, 1000).Draw(t, "n"),
+			Value: rapid.SampledFrom([]string{"", "x", "evil"}).Draw(t, "value"),
 		}
-		switch rapid.IntRange(0, 9).Draw(t, "scenario") {
-		case 0:
-			c.Tamper.Kind = "none"
-			c.Time = rapid.SampledFrom([]string{"mid", "start", "end", "start+ns", "end-ns"}).Draw(t, "time")
-		case 1:
-			c.Tamper.Kind = "none"
-			c.Time = rapid.SampledFrom([]string{"start-1", "end+1", "start-ns", "end+ns", "end+ms"}).Draw(t, "badtime")
-		case 2:
-			c.Tamper.Kind = "none"
-			c.Signers[rapid.IntRange(0, ns-1).Draw(t, "longidx")].Duration = rapid.SampledFrom([]int64{7*24*3600 + 1, 7*24*3600 + 1, 8 * 24 * 3600, 8 * 24 * 3600, 1<<31 - 1, 1 << 31, 1 << 32, 1<<32 + 3600, 1 << 33, 9223372036}).Draw(t, "long")
-		default:
-			c.Tamper = Tamper{
-				Kind:  rapid.SampledFrom([]string{"body-flip", "body-trunc", "body-extend", "status", "hdr-add", "hdr-remove", "hdr-edit", "reencode", "signed-flip", "sig-flip", "sig-append", "authority", "auth-swap", "auth-samekey-cert"}).Draw(t, "tamper"),
-				Ex:    rapid.IntRange(0, 20).Draw(t, "ex"),
-				Pos:   rapid.IntRange(0, 1<<16).Draw(t, "pos"),
-				Bit:   rapid.IntRange(0, 7).Draw(t, "bit"),
-				N:     rapid.IntRange(0, 1000).Draw(t, "n"),
-				Value: rapid.SampledFrom([]string{"", "x", "evil"}).Draw(t, "value"),
-			}
+	}
+	if rapid.IntRange(0, 7).Draw(t, "far-date") == 0 {
+		// dates around 2^31 / 2^32 / 2^33 seconds and in the year 9999 (legal unsigned integers)
+		c.Signers[rapid.IntRange(0, ns-1).Draw(t, "faridx")].DateOff = rapid.SampledFrom([]int64{1<<31 - 1 - baseDate, 1<<31 - baseDate - 3600, 1<<32 - baseDate - 3600, 1<<32 - baseDate, 1<<33 - baseDate, 253402300799 - 8*24*3600 - baseDate}).Draw(t, "fardate")
+	}
+	if c.Tamper.Kind == "auth-samekey-cert" {
+		c.Signers[0].Fixture = rapid.SampledFrom([]int{0, 3}).Draw(t, "samekeyfixture")
+		// make sure something is covered by it
+		c.Bundle.Exchanges[0].URL = "https://a.example/covered"
+		if c.Bundle.Version == "b1" {
+			c.Bundle.Primary = c.Bundle.Exchanges[0].URL
 		}
-		if rapid.IntRange(0, 7).Draw(t, "far-date") == 0 {
-			// dates around 2^31 / 2^32 / 2^33 seconds and in the year 9999 (legal unsigned integers)
-			c.Signers[rapid.IntRange(0, ns-1).Draw(t, "faridx")].DateOff = rapid.SampledFrom([]int64{1<<31 - 1 - baseDate, 1<<31 - baseDate - 3600, 1<<32 - baseDate - 3600, 1<<32 - baseDate, 1<<33 - baseDate, 253402300799 - 8*24*3600 - baseDate}).Draw(t, "fardate")
-		}
-		if c.Tamper.Kind == "auth-samekey-cert" {
-			c.Signers[0].Fixture = rapid.SampledFrom([]int{0, 3}).Draw(t, "samekeyfixture")
-			// make sure something is covered by it
-			c.Bundle.Exchanges[0].URL = "https://a.example/covered"
-			if c.Bundle.Version == "b1" {
-				c.Bundle.Primary = c.Bundle.Exchanges[0].URL
-			}
-		}
-		return c
-	})
+	}
+	return c
 }
